@@ -317,6 +317,115 @@ func rootInImportedDirCases(col *Collector) {
 	}
 }
 
+// the kinds of the nodes of a raw document, children of a mapping in the order of their keys
+func kindTree(v interface{}) string {
+	switch x := v.(type) {
+	case map[string]interface{}:
+		ks := make([]string, 0, len(x))
+		for k := range x {
+			ks = append(ks, k)
+		}
+		sort.Strings(ks)
+		var b strings.Builder
+		for _, k := range ks {
+			b.WriteString(kindTree(x[k]))
+		}
+		return "S(" + b.String() + ")"
+	case map[interface{}]interface{}:
+		ks := make([]string, 0, len(x))
+		byKey := map[string]interface{}{}
+		for k, e := range x {
+			ks = append(ks, fmt.Sprint(k))
+			byKey[fmt.Sprint(k)] = e
+		}
+		sort.Strings(ks)
+		var b strings.Builder
+		for _, k := range ks {
+			b.WriteString(kindTree(byKey[k]))
+		}
+		return "I(" + b.String() + ")"
+	case []interface{}:
+		var b strings.Builder
+		for _, e := range x {
+			b.WriteString(kindTree(e))
+		}
+		return "A(" + b.String() + ")"
+	case []map[string]interface{}:
+		var b strings.Builder
+		for _, e := range x {
+			b.WriteString(kindTree(e))
+		}
+		return "M(" + b.String() + ")"
+	}
+	return "L"
+}
+
+func topLevelKinds(doc map[string]interface{}) string {
+	ks := make([]string, 0, len(doc))
+	for k := range doc {
+		ks = append(ks, k)
+	}
+	sort.Strings(ks)
+	var b strings.Builder
+	for _, k := range ks {
+		b.WriteString(kindTree(doc[k]))
+	}
+	if b.Len() == 0 {
+		return "-"
+	}
+	return b.String()
+}
+
+// what the real parsers return for generated configurations, two at a time, through the real normalisation
+// (`unifyMapKinds`), against Model/Normalise.lean
+func unifyModelCases(col *Collector, rng *rand.Rand, n int) {
+	for i := 0; i < n; i++ {
+		fa, fb := formats[rng.Intn(3)], formats[rng.Intn(3)]
+		ca, _, _ := genAbstractConfig(rng)
+		cb, _, _ := genAbstractConfig(rng)
+		switch i % 5 {
+		case 1: // a document with nothing but variables and a list
+			ca = map[string]interface{}{"variables": map[string]interface{}{"A": "1"}, "import": []interface{}{"x"}}
+		case 2: // no mapping at all among the top-level values
+			ca = map[string]interface{}{"import": []interface{}{"x", "y"}, "debug": true}
+		case 3:
+			cb = map[string]interface{}{"output": "raw"}
+		}
+		ta, ea := serialise(ca, fa)
+		tb, eb := serialise(cb, fb)
+		cs := Case{Tags: []string{"normalise-model", fa + "+" + fb}, NonTrivial: true}
+		cs.Replay = fmt.Sprintf("unifyMapKinds on a %s and a %s document: %s | %s", fa, fb, clipStr(strings.ReplaceAll(ta, "\n", "\\n"), 300), clipStr(strings.ReplaceAll(tb, "\n", "\\n"), 300))
+		if ea != nil || eb != nil {
+			continue
+		}
+		func() {
+			defer func() {
+				if p := recover(); p != nil {
+					cs.Fail, cs.Sig = fmt.Sprint("normalisation panicked: ", p), "c16-cross-import"
+				}
+			}()
+			cl := verifhooks.NewConfigLoader(verifhooks.NewConfig())
+			da, err1 := cl.VerifParse([]byte(ta), "."+fa)
+			db, err2 := cl.VerifParse([]byte(tb), "."+fb)
+			if err1 != nil || err2 != nil {
+				cs.Fail, cs.Sig = fmt.Sprintf("generated document does not parse: %v %v", err1, err2), "c16-setup"
+				return
+			}
+			cs.Line = fmt.Sprintf("unify a=%s b=%s", topLevelKinds(da), topLevelKinds(db))
+			verifhooks.UnifyMapKinds(da, db)
+			ka, kb := topLevelKinds(da), topLevelKinds(db)
+			if ka == "-" {
+				ka = ""
+			}
+			if kb == "-" {
+				kb = ""
+			}
+			cs.Impl = fmt.Sprintf("a=%s b=%s", ka, kb)
+		}()
+		col.Add(cs)
+	}
+}
+
 func runC16(col *Collector, tier string, seed int64) {
 	loaderReuseCases(col, "C16", []string{"yaml", "json", "toml"}, []string{"missing", "unparsable"})
 	rng := rand.New(rand.NewSource(seed))
@@ -354,6 +463,7 @@ func runC16(col *Collector, tier string, seed int64) {
 	}
 	parallel(len(jobs), 8, func(i int) { fmtCase(col, jobs[i].cfg, jobs[i].tasks, jobs[i].pipes, jobs[i].tag, jobs[i].run) })
 	sharedListsCrossImportCases(col)
+	unifyModelCases(col, rng, map[bool]int{false: 60, true: 600}[tier == "thorough"])
 	rootInImportedDirCases(col)
 	for _, fa := range formats {
 		for _, fb := range formats {
